@@ -13,8 +13,8 @@ fn alphabet() -> Vec<Action> {
         a.push(Action::Prepare { id, n: 1, ok: false });
     }
     for id in [1u32, 2, 3] {
-        a.push(Action::Exec { id, bind: Bind::A, null_first: false, shim_ignores: false });
-        a.push(Action::Exec { id, bind: Bind::Reuse, null_first: false, shim_ignores: false });
+        a.push(Action::Exec { id, bind: Bind::A, null_first: false, shim_ignores: 0 });
+        a.push(Action::Exec { id, bind: Bind::Reuse, null_first: false, shim_ignores: 0 });
         a.push(Action::Long { id, param: 0, chunk: 1 });
         a.push(Action::Close { id });
     }
